@@ -92,6 +92,21 @@ func runC14(c *report.Ctx) {
 								c.OK(key, "copy of a public key (fixed 33 bytes)", posOf(c, r))
 								continue
 							}
+							// right-aligned in the 1+32 bytes of `0x00 || ser256(k)`: dst[33-len(key):]
+							if sl, isSl := x.Call.Args[0].(*ssa.Slice); isSl && sl.Low != nil {
+								if sub, isSub := sl.Low.(*ssa.BinOp); isSub && sub.Op == token.SUB {
+									if kk, isK := constInt(sub.X); isK && kk == 33 {
+										if ln, isLen := sub.Y.(*ssa.Call); isLen {
+											if b2, isB2 := ln.Call.Value.(*ssa.Builtin); isB2 && b2.Name() == "len" && len(ln.Call.Args) == 1 {
+												if l2, isLd := ln.Call.Args[0].(*ssa.UnOp); isLd && isFieldLoad(l2, ek, "key") {
+													c.OK(key, "copied right-aligned into the 33 bytes of 0x00 || ser256(k) (offset 33-len(key))", posOf(c, r))
+													continue
+												}
+											}
+										}
+									}
+								}
+							}
 							dst := "dst"
 							if sl, isSl := x.Call.Args[0].(*ssa.Slice); isSl {
 								lo := "0"
